@@ -17,6 +17,7 @@ import Golib.Proof.C17Case
 import Golib.Proof.C17Utf8Valid
 import Golib.Findings.C17
 import Golib.Proof.C17Int64
+import Golib.Model.C17Large
 
 namespace Golib.C17
 open Golib.Utf8
@@ -273,6 +274,43 @@ theorem c17_snake_camel_ascii (x : List Nat) (firstUp : Bool) (h : ∀ b ∈ x, 
 /-- Non-vacuity: `__a_1_b` ↦ `_A1B` (the leading `_` stays, the others go, only letters are re-cased); `AbCD` ↦ `ab_c_d`. -/
 example : snakeSpec [95, 95, 97, 95, 49, 95, 98] true false = [95, 65, 49, 66] ∧
     camelSpec [65, 98, 67, 68] false = [97, 98, 95, 99, 95, 100] := by decide
+
+/-- The linear-time evaluators of the LARGE stream (`Golib/Model/C17Large.lean`, used by the
+oracle for subjects of 1 000 – 100 000 runes) compute exactly what the cursor models compute:
+for every valid UTF-8 subject `s` (decoded once into `runes s`), every valid mask and all
+non-negative arguments; and for every ASCII subject of the case converters. -/
+theorem c17_large_eq_model (s m : List Nat) (hs : valid s = true) (hm : valid m = true)
+    (a b : Nat) (p : Int → Bool) (fu : Bool) :
+    sub s a b = some (subL (runes s) a b) ∧
+    sub s a (-1) = some (subL (runes s) a (-1)) ∧
+    mask s m a b = some (maskL s (runes s) (runes m) a b) ∧
+    rev s = some (revL (runes s)) ∧
+    removeRunes s p = some (removeL (runes s) p) ∧
+    ((∀ x ∈ s, x < 0x80) →
+      snakeToCamel s fu = some (snakeL s fu false) ∧ camelToSnake s = some (camelL s false)) := by
+  obtain ⟨hv, he⟩ := valid_eq_encode s hs
+  obtain ⟨hvm, hem⟩ := valid_eq_encode m hm
+  have sn : ∀ (t : List Nat) (f q : Bool), snakeL t f q = snakeSpec t f q := by
+    intro t; induction t with
+    | nil => intro f q; cases f <;> rfl
+    | cons x t ih => intro f q; cases f <;> simp [snakeL, snakeSpec, ih]
+  have cm : ∀ (t : List Nat) (q : Bool), camelL t q = camelSpec t q := by
+    intro t; induction t with
+    | nil => intro q; rfl
+    | cons x t ih => intro q; simp [camelL, camelSpec, ih]
+  refine ⟨?_, ?_, ?_, ?_, ?_, fun h => ?_⟩
+  · conv => lhs; rw [← he]
+    rw [(c17_sub (runes s) hv a).1 b]; simp [subL]
+  · conv => lhs; rw [← he]
+    rw [(c17_sub (runes s) hv a).2]; simp [subL]
+  · conv => lhs; rw [← he, ← hem]
+    rw [c17_mask (runes s) (runes m) hv hvm a b]
+    simp only [maskL, maskRunesL, maskRunes, he]
+  · conv => lhs; rw [← he]
+    rw [c17_rev (runes s) hv]; rfl
+  · conv => lhs; rw [← he]
+    rw [c17_removeRunes (runes s) hv p]; rfl
+  · rw [sn, cm]; exact c17_snake_camel_ascii s fu h
 
 /-- Non-vacuity: `foo_bar1` is in the grammar; `FooBar1` / `fooBar1` are the intermediate values. -/
 example : isSnakeIdent [102, 111, 111, 95, 98, 97, 114, 49] = true := by decide
